@@ -554,6 +554,44 @@ func runC07(c *Ctx, w *World, r *Report) {
 	// ---- R-COUNT
 	ReportCount(w, r, "pbcmpl.Marshal", 0, isParamStream(fns["pbcmpl.Marshal"], 0))
 	ReportCount(w, r, "pbcmpl.ReadHeader", 0, isParamStream(fns["pbcmpl.ReadHeader"], 0))
+	// R-WRITERERR: Marshal hands back the writer's own error
+	r.Rule("R-WRITERERR", "when a write of Marshal fails, the error Marshal returns is the very value the writer returned - not a wrapped copy (errors.WithStack and the like keep the text but not the identity: a caller comparing with io.ErrShortWrite or io.ErrClosedPipe no longer recognises it)")
+	if mf := fns["pbcmpl.Marshal"]; mf != nil {
+		fa := w.FA(mf)
+		werrs := map[ssa.Value]bool{}
+		for _, ic := range streamCalls(mf, isParamStream(mf, 0)) {
+			if refs := ic.Call.Referrers(); refs != nil {
+				for _, u := range *refs {
+					if ex, ok := u.(*ssa.Extract); ok && isErrorType(ex.Type()) {
+						for a := range errAliases(ex) {
+							werrs[a] = true
+						}
+					}
+				}
+			}
+		}
+		bad := ""
+		nret := 0
+		for _, ret := range returnsOf(mf) {
+			if len(ret.Results) == 0 {
+				continue
+			}
+			nret++
+			for _, lf := range fa.leavesOf(ret.Results[len(ret.Results)-1], ret.Block(), 0) {
+				call, ok := lf.V.(*ssa.Call)
+				if !ok || !nilPreservingWrappers[calleeName(call.Common())] || len(call.Common().Args) == 0 {
+					continue
+				}
+				if werrs[call.Common().Args[0]] {
+					bad = "the return at " + w.InstrPos(ret) + " hands back " + calleeName(call.Common()) + "(err) for the error of a write: the writer's own error value is replaced by a wrapped copy"
+				}
+			}
+		}
+		r.Check(bad == "" && len(werrs) > 0, "R-WRITERERR", "pbcmpl.Marshal", w.Pos(mf.Pos()), firstNonEmpty(bad, "no write error found in Marshal"), fmt.Sprintf("%d returns, %d write-error values, none wrapped", nret, len(werrs)))
+	}
+	// a cut of a frame the library wrote is an unexpected EOF, not an invalid size: Unmarshal refuses on its own account
+	// only sizes Marshal cannot record (shared with C06)
+	reportAccept(w, r, "pbcmpl.Unmarshal")
 	ReportCount(w, r, "pbcmpl.Unmarshal", 0, isParamStream(fns["pbcmpl.Unmarshal"], 0))
 	reportWriteOrder(w, r, fns["pbcmpl.Marshal"])
 	_ = types.Typ
@@ -744,4 +782,11 @@ func reportMsgFinal(w *World, r *Report, fn *ssa.Function) {
 		}
 	})
 	r.Check(bad == "", "R-MSGFINAL", "pbcmpl.Unmarshal", w.Pos(fn.Pos()), bad, "no call takes msg after proto.Unmarshal")
+}
+
+func firstNonEmpty(a, b string) string {
+	if a != "" {
+		return a
+	}
+	return b
 }
